@@ -25,10 +25,21 @@ Holes(r) == { [pid |-> PidOf(r.PT, r.holes[k].name), id |-> r.holes[k].id] : k \
 TailOf(r) == IF r.tail.name = "" THEN [pid |-> 0, ids |-> <<>>]
              ELSE [pid |-> PidOf(r.PT, r.tail.name), ids |-> r.tail.ids]
 
-CutPremise(r) ==
+\* the premise of C02 ("the pattern parses to the same tree shape as that code") is read off r.RT, the parse of the
+\* pattern text tabulated by the recorder itself, never off the pattern object built by the code under test
+HolesR(r) == { [pid |-> PidOf(r.RT, r.holes[k].name), id |-> r.holes[k].id] : k \in 1..Len(r.holes) }
+TailOfR(r) == IF r.tail.name = "" THEN [pid |-> 0, ids |-> <<>>]
+              ELSE [pid |-> PidOf(r.RT, r.tail.name), ids |-> r.tail.ids]
+CutPremisePT(r) ==
+    /\ ~r.nopat
     /\ \A k \in 1..Len(r.holes) : HasVar(r.PT, r.holes[k].name)
     /\ (r.tail.name # "" => HasVar(r.PT, r.tail.name))
     /\ SameShape(r.PT, r.T, 1, 1, Holes(r), TailOf(r))
+CutPremise(r) ==
+    /\ r.RT # <<>>
+    /\ \A k \in 1..Len(r.holes) : HasVar(r.RT, r.holes[k].name)
+    /\ (r.tail.name # "" => HasVar(r.RT, r.tail.name))
+    /\ SameShape(r.RT, r.T, 1, 1, HolesR(r), TailOfR(r))
 
 Reasons(r) ==
     LET PT == r.PT  T == r.T IN
@@ -37,15 +48,19 @@ Reasons(r) ==
             \* from the node (cut-not-matched below) and C11's otherwise
             (IF o.ok /\ ~Legal(PT, T, s, 1, 1) THEN {<<"illegal-match", s>>} ELSE {})
             \* C04: the reported bindings are consistent with an alignment in which a variable always stands for the same code
-            \cup (IF o.ok /\ Legal(PT, T, s, 1, 1) /\ ~LegalB(PT, T, s, 1, 1, o.single) THEN {<<"same-variable-different-code", s>>} ELSE {})
+            \cup (IF o.ok /\ Legal(PT, T, s, 1, 1) /\ ~LegalB(PT, T, s, 1, 1, [single |-> o.single, multi |-> o.multi]) THEN {<<"same-variable-different-code", s>>} ELSE {})
             \cup (IF o.len >= 0 /\ ~EndOK(T, 1, T[1].s + o.len) THEN {<<"match-len", s>>} ELSE {})
           : i \in 1..5 }
     \* the kept text of a cut pattern is copied from the code: when the parsed pattern has the structure of the code but
     \* a kept leaf reads differently, the pattern text was altered on its way to the matcher
-    \cup (IF r.mode = "cut" /\ ~CutPremise(r) /\ (\A k \in 1..Len(r.holes) : HasVar(r.PT, r.holes[k].name))
+    \cup (IF r.mode = "cut" /\ ~r.nopat /\ ~CutPremisePT(r) /\ (\A k \in 1..Len(r.holes) : HasVar(r.PT, r.holes[k].name))
              /\ (r.tail.name # "" => HasVar(r.PT, r.tail.name)) /\ SameKinds(r.PT, r.T, 1, 1, Holes(r), TailOf(r))
           THEN {<<"pattern-text-altered", "smart">>} ELSE {})
     \cup (IF r.mode = "cut" /\ CutPremise(r)
+          THEN UNION { LET s == Levels[i]  o == r.outs[s] IN
+                       IF CutOK(r.RT, T, HolesR(r), TailOfR(r), o) THEN {} ELSE {<<"cut-not-matched", s>>}
+                     : i \in 1..5 }
+          ELSE IF r.mode = "cut" /\ CutPremisePT(r)
           THEN UNION { LET s == Levels[i]  o == r.outs[s] IN
                        IF CutOK(PT, T, Holes(r), TailOf(r), o) THEN {} ELSE {<<"cut-not-matched", s>>}
                      : i \in 1..5 }
@@ -53,7 +68,7 @@ Reasons(r) ==
 
 Drift(r) ==
     UNION { LET s == Levels[i]  o == r.outs[s]  m == Match(r.PT, r.T, s, 1) IN
-            IF o.panic THEN {}
+            IF o.panic \/ r.nopat THEN {}
             ELSE IF m.ok # o.ok THEN {<<"verdict", s>>}
             ELSE IF o.ok /\ ~(FnEq(m.env.single, o.single) /\ FnEq(m.env.multi, o.multi)) THEN {<<"env", s>>}
             ELSE {}
@@ -63,7 +78,7 @@ Init == l = 1 /\ pFail = <<>>
 
 Step == /\ l <= Len(Recs)
         /\ LET r == Recs[l]  rs == Reasons(r)  dr == Drift(r) IN
-             /\ (r.mode = "cut" /\ ~CutPremise(r)) => PrintT(<<"DISCARD", l>>)
+             /\ (r.mode = "cut" /\ ~CutPremise(r) /\ ~CutPremisePT(r)) => PrintT(<<"DISCARD", l>>)
              /\ (dr # {} /\ rs = {}) => PrintT(<<"DRIFT", l, r.id, dr>>)
              /\ (\E i \in 1..5 : r.outs[Levels[i]].panic) => PrintT(<<"PANIC", l, r.id>>)
              /\ pFail' = IF rs = {} THEN pFail
